@@ -23,3 +23,27 @@ package repo
 //@   loop 2 invariant forall j int :: 0 <= j && j < #iter ==> !okEntry(wantC(version), vs[j])
 //@   loop 2 invariant constraint != nil && consOf(*constraint) == wantC(version)
 //@   loop 2 invariant version != "" ==> forall j int :: 0 <= j && j < len(vs) ==> vs[j].Metadata.Version != version
+
+// ---- C18 / C20: loading an index (index.go)
+
+//@ ghost func entriesOK(vs ChartVersions) bool = forall j int :: 0 <= j && j < len(vs) ==> vs[j] != nil && vs[j].Metadata != nil
+//@ ghost func allEntriesOK(m gomap[string]ChartVersions) bool = forall k string :: has(m, k) ==> entriesOK(m[k])
+
+//@ func IndexFile.SortEntries
+//@   props C18 C20
+//@   trusted
+//@   requires [no-nil-entries] allEntriesOK(i.Entries)
+//@   ensures [still-no-nil] allEntriesOK(i.Entries)
+//@   ensures [sorted-newest-first] forall k string :: has(i.Entries, k) ==> sortedDesc(i.Entries[k])
+
+//@ func ChartVersions.Less
+//@   props C20
+//@   requires 0 <= a && a < len(c) && 0 <= b && b < len(c) && c[a] != nil && c[a].Metadata != nil && c[b] != nil && c[b].Metadata != nil
+
+//@ func loadIndex
+//@   props C18 C20
+//@   ensures [only-usable-entries] result0 != nil && (result1 == nil ==> allEntriesOK(result0.Entries))
+//@   loop 1 invariant [checked] i != nil && (forall k string :: #done[k] ==> has(i.Entries, k) && entriesOK(i.Entries[k]))
+//@   loop 2 invariant [suffix-ok] forall j int :: idx < j && j < len(cvs) ==> cvs[j] != nil && cvs[j].Metadata != nil
+//@   loop 2 invariant [bounds] -1 <= idx && idx < len(cvs) && i != nil && i.Entries != nil
+//@   loop 2 invariant [checked] forall k string :: #done$1[k] && k != name ==> has(i.Entries, k) && entriesOK(i.Entries[k])
